@@ -301,6 +301,29 @@ class Spec:
         ops.append(Op("carryMassCalc", "F", self._query("carryMassCalc")))
         for k in RAND:
             ops.append(Op("randomPos", k, self._rand(k)))
+
+        def then_second_platform(first):
+            # one call on this platform, then ANOTHER platform (another geometry) is built and driven in the same process -
+            # both FK solvers, IK, a move - inside ONE transition (states are snapshotted by deep copy between transitions,
+            # which would silently un-share an array two live platforms hold in common).  Nothing of the second platform's
+            # activity may show on this one: the invariant is asked of this platform afterwards, the model is untouched.
+            def f(st):
+                st, obs = first(st)
+                other = [g for g in ("G2", "G1") if g != self.geo][0]
+                b = build(other)
+                fr = np.array(dict(FK_LENS)["mixed"], float)
+                with quiet():
+                    for mode, fsel in ((0, 0.35 + 0.3 * fr.clip(0, 1)), (1, 0.6 - 0.2 * fr.clip(0, 1))):
+                        b.FK(b.leg_ext_min + fsel * (b.leg_ext_max - b.leg_ext_min), fk_mode=mode)
+                    b.move(self.tm(list(MOVE_B)))
+                    b.FK(b.leg_ext_min + 0.5 * (b.leg_ext_max - b.leg_ext_min) * np.ones(6), fk_mode=0)
+                    b.validate()
+                st.second = b        # stays alive with the state
+                return st, obs
+            return f
+        ops.append(Op("FK_then_a_second_platform_is_built_and_driven", {"lengths": "in", "fk_mode": 0},
+                      then_second_platform(self._fk("in", 0, False))))
+        ops.append(Op("IK_then_a_second_platform_is_built_and_driven", "in", then_second_platform(self._ik("in", False))))
         self.ops = ops
 
     # the palette must sit where its names say (harness assertion: a vacuous palette is a harness error, not silence)
@@ -341,7 +364,7 @@ class Spec:
 
     def state_key(self, st):
         r = st.ref
-        return canon.flatten([st.sp, r.bl, r.tl, r.home_t_in_b, r.home_b_in_t, r.spins])
+        return canon.flatten([st.sp, r.bl, r.tl, r.home_t_in_b, r.home_b_in_t, r.spins, getattr(st, "second", None) is not None])
 
     # ---- transitions -------------------------------------------------------------------------------------------
     def _ik(self, k, protect):
@@ -545,7 +568,7 @@ def run(ctx):
     cov["rule"] = ("BFS over histories of {IK x%d targets (in, too high, too low, tilted, below the base, far sideways, five targets "
                    "just beyond one limit each%s), IK(protect) far sideways, FK x4 length vectors x2 fk_modes, reverse FK, "
                    "move x%d, spinCustom(0.4), validate, validate(donothing), inverseJacobian, staticForces, carryMassCalc, "
-                   "randomPos x2 scripts} per (geometry, switch subset, start); coherence, honesty of 'valid' and purity of "
+                   "randomPos x2 scripts, FK(fsolve) / IK followed by a second platform built and driven alongside} per (geometry, switch subset, start); coherence, honesty of 'valid' and purity of "
                    "queries checked after every call" % (len(sp0.targets), ", one seed-generic" if ctx.seed else "", len(sp0.moves)))
     cov["skipped_specs"] = skipped
     if skipped:
